@@ -976,3 +976,318 @@ func ruleErrContent(p *Prog, r *Report, encoders []string) {
 		}
 	}
 }
+
+// ---- ITER.fresh for map entries (C08, C10) -------------------------------------------------------------------------------------------------
+
+// ruleIterFreshMap: a function that turns a list of specifications into map entries, one per loop iteration, computes each entry
+// from its own specification: neither the key nor the value stored in an iteration depends — by data or by the conditions that
+// select it — on a variable that survives from an earlier iteration (a conversion type that stays set, for instance).
+func ruleIterFreshMap(p *Prog, r *Report, names []string) {
+	const rule = "ITER.fresh"
+	for _, n := range names {
+		fn := p.Fn(n)
+		if fn == nil {
+			r.Anchor(rule, n)
+			continue
+		}
+		cnt, bad := 0, ""
+		eachInstr(fn, func(b *ssa.BasicBlock, in ssa.Instruction) {
+			mu, ok := in.(*ssa.MapUpdate)
+			if !ok {
+				return
+			}
+			hdr := innermostLoopHeader(b)
+			if hdr == nil {
+				return
+			}
+			cnt++
+			infl := p.influence(fn, true, mu.Value, mu.Key)
+			// which of several stores executes is part of how the entry is computed
+			for v := range p.blockInfluence(fn, mu).values {
+				infl.values[v] = true
+			}
+			for v := range infl.values {
+				ph, isPhi := v.(*ssa.Phi)
+				if !isPhi || ph.Block() != hdr || isInductionPhi(ph) {
+					continue
+				}
+				if _, isIter := ph.Type().Underlying().(*types.Map); isIter {
+					continue // the map being filled
+				}
+				self := false
+				for i, pr := range hdr.Preds {
+					if !hdr.Dominates(pr) {
+						continue
+					}
+					if ph.Edges[i] == ssa.Value(ph) || backwardSlice(fn, ph.Edges[i])[ph] {
+						self = true
+					}
+				}
+				if self && bad == "" {
+					bad = "the entry stored at " + p.Pos(mu.Pos()) + " depends on " + ph.Comment + ", which keeps its value from an earlier iteration"
+				}
+			}
+		})
+		cons := "each entry is computed from its own specification"
+		switch {
+		case cnt == 0:
+			r.Assume(rule, n, cons, p.Pos(fn.Pos()), "no map store inside a loop found: not decided here")
+		case bad != "":
+			r.Bad(rule, n, cons, p.Pos(fn.Pos()), bad+": a specification is interpreted with something left over from the one before it")
+		default:
+			r.OK(rule, n, cons, p.Pos(fn.Pos()), fmt.Sprintf("%d map store(s) in the loop, none influenced by a loop-carried variable other than the loop index", cnt))
+		}
+	}
+}
+
+// ---- ALIAS.unsafe (C04, C17) ---------------------------------------------------------------------------------------------------------------
+
+// ruleNoUnsafe: the module does not convert through unsafe.Pointer. A string made to alias a byte slice it does not own (the
+// token buffer of xml.Decoder is reused by the next RawToken) changes after it was stored in the Map.
+func ruleNoUnsafe(p *Prog, r *Report) {
+	const rule = "ALIAS.unsafe"
+	n, bad := 0, ""
+	for _, f := range p.FuncList {
+		if !p.InModule(f) || len(f.Blocks) == 0 {
+			continue
+		}
+		n++
+		eachInstr(f, func(b *ssa.BasicBlock, in ssa.Instruction) {
+			cv, ok := in.(*ssa.Convert)
+			if !ok || bad != "" {
+				return
+			}
+			isUP := func(t types.Type) bool {
+				bt, ok := t.Underlying().(*types.Basic)
+				return ok && bt.Kind() == types.UnsafePointer
+			}
+			if isUP(cv.Type()) || isUP(cv.X.Type()) {
+				bad = p.Name(f) + " at " + p.Pos(cv.Pos())
+			}
+		})
+	}
+	if bad != "" {
+		r.Bad(rule, "module", "no conversion through unsafe.Pointer", "", "unsafe.Pointer conversion in "+bad+": a value that aliases memory it does not own can change after it was stored or returned")
+	} else {
+		r.OK(rule, "module", "no conversion through unsafe.Pointer", "", fmt.Sprintf("%d module functions, none converts to or from unsafe.Pointer", n))
+	}
+}
+
+// ---- CAST.unscreened (C02, C14) ------------------------------------------------------------------------------------------------------------
+
+// ruleCastUnscreened: with float casting on, cast() offers every value to strconv.ParseFloat — which is what decides what a
+// number looks like (exponent notation included: it is what the encoder's %v writes for large and small floats). Whether the
+// ParseFloat call executes depends on the options, on the NaN/Inf screen and on earlier Parse* attempts having failed, never on
+// another test of the text.
+func ruleCastUnscreened(p *Prog, r *Report) {
+	const rule = "TABLE.castparsers"
+	fn := p.Fn("mxj.cast")
+	if fn == nil {
+		r.Anchor(rule, "mxj.cast")
+		return
+	}
+	scope := []castHelper{{fn, fn.Params[0], nil}}
+	scope = append(scope, p.castHelpers(fn)...)
+	n, bad := 0, ""
+	for _, sc := range scope {
+		f, input := sc.h, sc.prm
+		eachInstr(f, func(b *ssa.BasicBlock, in ssa.Instruction) {
+			c, ok := in.(*ssa.Call)
+			if !ok || !isCallTo(&c.Call, "strconv.ParseFloat") || bad != "" {
+				return
+			}
+			n++
+			// conditions the call is control-dependent on
+			ci := p.cfgOf(f)
+			seen := map[int]bool{}
+			work := []int{b.Index}
+			for len(work) > 0 {
+				bi := work[len(work)-1]
+				work = work[:len(work)-1]
+				if seen[bi] {
+					continue
+				}
+				seen[bi] = true
+				for _, ce := range ci.cdep[bi] {
+					work = append(work, ce.Block.Index)
+					ifi, isIf := ce.Block.Instrs[len(ce.Block.Instrs)-1].(*ssa.If)
+					if !isIf {
+						continue
+					}
+					sl := backwardSlice(f, ifi.Cond)
+					if !sl[input] {
+						continue // options, flags
+					}
+					okCond := false
+					for v := range sl {
+						switch x := v.(type) {
+						case *ssa.Call:
+							if hasPrefixAny(p.calleeName(&x.Call), "strconv.Parse") {
+								okCond = true // an earlier attempt failed
+							}
+							if isCallTo(&x.Call, "strings.ToLower", "strings.EqualFold") {
+								okCond = true // the NaN/Inf screen
+							}
+							// a predicate helper that folds the case of its argument: the NaN/Inf screen moved out
+							if h := staticCallee(&x.Call); h != nil && p.InModule(h) && !p.Exported(h) && len(h.Blocks) > 0 {
+								eachInstr(h, func(b2 *ssa.BasicBlock, i2 ssa.Instruction) {
+									if c2, ok := i2.(*ssa.Call); ok && isCallTo(&c2.Call, "strings.ToLower", "strings.EqualFold") {
+										okCond = true
+									}
+								})
+							}
+						}
+					}
+					if !okCond && bad == "" {
+						bad = "the strconv.ParseFloat call at " + p.Pos(c.Pos()) + " executes only if the test at " + p.Pos(ifi.Cond.Pos()) + " of the text lets it"
+					}
+				}
+			}
+		})
+	}
+	cons := "ParseFloat is not behind a screen of the text"
+	switch {
+	case n == 0:
+		r.Assume(rule, "mxj.cast", cons, p.Pos(fn.Pos()), "no strconv.ParseFloat call found in cast or its helpers")
+	case bad != "":
+		r.Bad(rule, "mxj.cast", cons, p.Pos(fn.Pos()), bad+": numerals ParseFloat accepts but the screen rejects (exponent notation, which the encoder itself writes) stay strings, so decode-encode-decode is not a fixed point")
+	default:
+		r.OK(rule, "mxj.cast", cons, p.Pos(fn.Pos()), fmt.Sprintf("%d ParseFloat call(s), control-dependent on options, the NaN/Inf screen and earlier parse failures only", n))
+	}
+}
+
+// ---- WALK.progress "every node reaches the exhausted-path test" (C07) ----------------------------------------------------------------------
+
+// ruleWalkNullLeaf: what the path walker does with a node is decided by how much of the path is left first, and by the node
+// only afterwards: the test "no segments left" is not preceded by any test of the node. A nil node with no segments left is a
+// JSON null that the path denotes; an early `if m == nil { return }` drops it.
+func ruleWalkNullLeaf(p *Prog, r *Report, walkers []string) {
+	const rule = "WALK.progress"
+	for _, wn := range walkers {
+		fn := p.Fn(wn)
+		if fn == nil {
+			r.Anchor(rule, wn)
+			continue
+		}
+		var keys, node *ssa.Parameter
+		for _, prm := range fn.Params {
+			if isStringSlice(prm.Type()) {
+				keys = prm
+			}
+			if isEmptyIface(prm.Type()) && node == nil {
+				node = prm
+			}
+		}
+		if keys == nil || node == nil {
+			r.Unknown(rule, wn, "the exhausted-path test precedes every test of the node", p.Pos(fn.Pos()), "path / node parameters not recognised")
+			continue
+		}
+		cz := p.canonFor(fn)
+		want := "len(" + cz.of(keys) + ")"
+		n, bad := 0, ""
+		eachInstr(fn, func(b *ssa.BasicBlock, in ssa.Instruction) {
+			ifi, ok := in.(*ssa.If)
+			if !ok {
+				return
+			}
+			bo, ok := normGuard(guard{ifi.Cond, true}).Cond.(*ssa.BinOp)
+			if !ok || cz.of(bo.X) != want {
+				return
+			}
+			if k, isK := constInt(bo.Y); !isK || k != 0 {
+				return
+			}
+			n++
+			if p.blockInfluence(fn, ifi).params[node] {
+				bad = p.Pos(ifi.Cond.Pos())
+			}
+		})
+		cons := "the exhausted-path test precedes every test of the node"
+		switch {
+		case n == 0:
+			r.Assume(rule, wn, cons, p.Pos(fn.Pos()), "no test len(keys) == 0 found: the walker's end-of-path handling is not of the recognised form")
+		case bad != "":
+			r.Bad(rule, wn, cons, bad, "whether the walker looks at the remaining path at all depends on the node: a node the earlier test turns away (nil, i.e. a JSON null) is not returned although the path denotes it")
+		default:
+			r.OK(rule, wn, cons, p.Pos(fn.Pos()), "the len(keys) == 0 test is control-independent of the node parameter")
+		}
+	}
+}
+
+// ---- PATH.segments "SetValueForPath looks the parent up under the path without its last segment" (C11) -------------------------------------
+
+func ruleSetParentPath(p *Prog, r *Report) {
+	const rule = "PATH.segments"
+	fn := p.Fn("mxj.Map.SetValueForPath")
+	if fn == nil {
+		r.Anchor(rule, "mxj.Map.SetValueForPath")
+		return
+	}
+	var path *ssa.Parameter
+	for _, prm := range fn.Params {
+		if isStringType(prm.Type()) {
+			path = prm
+		}
+	}
+	if path == nil {
+		return
+	}
+	n := 0
+	eachInstr(fn, func(b *ssa.BasicBlock, in ssa.Instruction) {
+		c, ok := in.(*ssa.Call)
+		if !ok {
+			return
+		}
+		g := staticCallee(&c.Call)
+		if g == nil || (p.Name(g) != "mxj.Map.ValueForPath" && p.Name(g) != "mxj.Map.ValuesForPath") || len(c.Call.Args) < 2 {
+			return
+		}
+		n++
+		cons := "the parent is looked up under the path without its last segment"
+		switch cls := p.segClass(c.Call.Args[1], func(v ssa.Value) bool { return v == ssa.Value(path) }, 0); cls {
+		case "parent":
+			r.OK(rule, p.Name(fn), cons, p.Pos(c.Pos()), "the queried path is the path cut before its last separator")
+		case "":
+			r.Unknown(rule, p.Name(fn), cons, p.Pos(c.Pos()), "the queried path is not recognised as a part of the path (cut at the last separator by Split/Join, LastIndex or a helper)")
+		default:
+			r.Bad(rule, p.Name(fn), cons, p.Pos(c.Pos()), "the parent is looked up under the '"+cls+"' part of the path")
+		}
+	})
+	if n == 0 {
+		r.Assume(rule, p.Name(fn), "the parent is looked up under the path without its last segment", p.Pos(fn.Pos()), "no ValueForPath / ValuesForPath call found in SetValueForPath")
+	}
+}
+
+// ---- WRAP.fileloop "the file a name denotes" (C19) -----------------------------------------------------------------------------------------
+
+// ruleFileNoLstat: readers and writers agree on which file a name denotes: both follow symbolic links (os.Open, os.Create,
+// os.Stat). A reader that judges the name with os.Lstat refuses a link the writer happily wrote through.
+func ruleFileNoLstat(p *Prog, r *Report) {
+	const rule = "WRAP.fileloop"
+	bad, n := "", 0
+	for _, pr := range fileLoops {
+		fn := p.Fn(pr[0])
+		if fn == nil {
+			continue
+		}
+		n++
+		for f := range p.Reach(fn) {
+			if !p.InModule(f) || len(f.Blocks) == 0 {
+				continue
+			}
+			eachInstr(f, func(b *ssa.BasicBlock, in ssa.Instruction) {
+				if c, ok := in.(ssa.CallInstruction); ok && isCallTo(c.Common(), "os.Lstat", "os.Readlink") && bad == "" {
+					bad = p.Name(f) + " at " + p.Pos(in.Pos())
+				}
+			})
+		}
+	}
+	if n == 0 {
+		return
+	}
+	if bad != "" {
+		r.Bad(rule, "file readers", "names are resolved as the writers resolve them", "", "os.Lstat below a file reader ("+bad+"): a name that is a symbolic link is judged by the link, while os.Create and os.Open follow it — a file written through the link cannot be read back")
+	} else {
+		r.OK(rule, "file readers", "names are resolved as the writers resolve them", "", fmt.Sprintf("%d readers: no os.Lstat / os.Readlink below them (os.Stat and os.Open follow links like os.Create)", n))
+	}
+}
